@@ -88,7 +88,10 @@ class CUSUM(StreamingDetector):
         if len(X.shape) > 1 and X.shape[1] != 1:
             raise ValueError("CUSUM should only be used to monitor 1 variable.")
         super().update(X, None, None)
-        self._stream.append(X)
+        # the statistics are computed in double precision whatever the dtype of
+        # the input (with an integer target, x - target would otherwise be
+        # evaluated in e.g. uint8 and wrap around)
+        self._stream.append(X.astype(float))
 
         # cannot compute s_h/s_l so set to 0
         if (self.target is None) & (self.samples_since_reset < self.burn_in):
